@@ -237,6 +237,15 @@ def run(ctx: Ctx, driver: Driver):
     pairings(ctx, driver, rng)
     ble_transport_grid(ctx, rng)
     ble_delivery_grid(ctx, rng)
+    # the reply loop of _pairing_char_write against its Lean model (theorems C04_ble_*), drawn from its own generator
+    from harness.c04_reassembly import run_reassembly
+    import random as _random
+    sub = ctx.rng
+    ctx.rng = _random.Random(ctx.seed * 7919 + 4)
+    try:
+        run_reassembly(ctx, driver)
+    finally:
+        ctx.rng = sub
     coap_transport_grid(ctx, rng)
     ip_transport_grid(ctx, rng)
     top_grid(ctx, rng)
@@ -3064,6 +3073,14 @@ def live_grid(ctx: Ctx, rng):
 
 
 def replay(ctx, driver, c):
+    if c.get("stream") == "ble-reassembly":
+        from harness.c04_reassembly import real
+        script = [(t.split(":")[0], (int(t.split(":")[1]) if t[0] == "p" else (bytes.fromhex(t.split(":")[1]) if t.split(":")[1] != "-" else b""))) for t in c["script"]]
+        status, got = real(script)
+        first = next(((k, p_) for k, p_ in script if k in ("l", "p")), None)
+        if status == "returned" and first and first[0] == "p" and got != {6: bytes([first[1] & 0xFF]), 7: b"\x02"}:
+            return f"the caller was handed { {t: v.hex() for t, v in got.items()} } instead of the unfragmented reply [State={first[1]}, Error=2]"
+        return None
     if c.get("stream") in LIVE_CELLS:
         from harness import simnet
         loop = simnet.VLoop()
